@@ -520,6 +520,7 @@ package stdlib
 //@   assert at "0).In(" : $arg1 == *tz
 // buckettime prints the parsed instant with exactly the layout its bucket name stands for
 //@ func kfBucketTime$1
+//@   ensures [bucket-of-this-instant] result == tfmt(t, *bucketFormat)
 //@   assert at "return t.Format(" : $arg1 == *bucketFormat
 //@ func kfBucketTime
 //@   assert at "return smartDateParseWrapper(" : bucketFormat != "" && $arg0 == parseFormat && $arg2 == args[0]
